@@ -7,6 +7,7 @@ import (
 	"os"
 	"path/filepath"
 	"sort"
+	"strings"
 	"sync"
 	"sync/atomic"
 
@@ -57,6 +58,16 @@ func c05Bulk(tier string, seed int64, idx int, scratch string) rt.CaseResult {
 			rt.Beat()
 		}
 		if !set(fmt.Sprintf("b%05d", i), seqrun.Content(fmt.Sprintf("b%d-%d", idx, i), 6+i%9)) {
+			return c
+		}
+	}
+	// keys of one and of two megabytes and more: their records are the largest the metadata store
+	// holds (it keeps values of this size apart from the small ones)
+	for i, kl := range []int{1 << 20, 1<<20 + 4000, 2<<20 + 77} {
+		if mode == dbx.Grpc && i == 2 {
+			continue
+		}
+		if !set(strings.Repeat(fmt.Sprintf("%c", 'A'+i), kl), seqrun.Content(fmt.Sprintf("b%d-huge%d", idx, i), 30)) {
 			return c
 		}
 	}
